@@ -254,7 +254,7 @@ def r_marker(ctx):
             if isinstance(n, ast.Constant) and isinstance(n.value, str) and "CumulativeWorker" in n.value and n.value != "CumulativeWorker" \
                     and len(n.value) < 40 and " " not in n.value:
                 readers.append((m, n))
-    ctx.floor("R-MARKER", "marker reader sites", len(readers), 3)
+    ctx.floor("R-MARKER", "marker reader sites", len(readers), 1)
     bad = [(m, n) for m, n in readers if n.value != writer]
     if bad:
         for m, n in bad:
@@ -277,4 +277,11 @@ def r_requirement_interval(ctx):
     resources.r_busy_bind(ctx)
 
 
-RULES = [r_extract, r_horizon_report, r_calendar, r_view_symmetry, r_marker, r_requirement_interval]
+def r_horizon_bounds_ends(ctx):
+    """'the horizon is not earlier than any task end': the reported horizon is the model value of problem._horizon
+    (R-HORIZON-REPORT) and every task end is asserted <= problem._horizon by the solver - the C01 rule R-HORIZON"""
+    from rules import tasks
+    tasks.r_horizon(ctx)
+
+
+RULES = [r_extract, r_horizon_report, r_calendar, r_view_symmetry, r_marker, r_requirement_interval, r_horizon_bounds_ends]
